@@ -80,7 +80,7 @@ def run(ctx):
             label = "unsigned"
         else:
             ev.assumptions = {tm.truth(sk): True, tm.cmp("is", flag, None): False, tm.cmp("gt", tm.length(sk), 1): False}
-            ev.bind = {kind_t: kind}
+            ev.bind = {kind_t: kind, tm.idx(kind_t.args[0], "addr_type"): kind}  # decoded['addr_type'], either way it is read
             label = "sender kind " + kind
         s = ev.run(fi)
         n_modes += 1
@@ -267,6 +267,7 @@ def check_multikey_order(ctx, oid="C16.10"):
         ev.bind = {tm.length(sk): 2}
         for i in (0, 1):
             ev.bind[T("field", (tm.app("bits.utils.wif_decode", [tm.idx(sk, i), True], ty=tm.ANY), "addr_type"))] = kind
+            ev.bind[tm.idx(tm.app("bits.utils.wif_decode", [tm.idx(sk, i), True], ty=tm.ANY), "addr_type")] = kind
         s = ev.run(fi)
         sites = {}
         for c in s.calls:
@@ -295,7 +296,7 @@ def check_pubkey_form(ctx, oid="C16.11"):
     suffix = [tm.truth(T("field", (dec, "data"))), tm.truth(tm.idx(dec, "data"))]
     for kind in ("p2pkh", "p2wpkh", "p2sh-p2wpkh"):
         ev.assumptions = {tm.truth(sk): True, tm.cmp("is", flag, None): False, tm.cmp("gt", tm.length(sk), 1): False}
-        ev.bind = {kind_t: kind}
+        ev.bind = {kind_t: kind, tm.idx(kind_t.args[0], "addr_type"): kind}  # decoded['addr_type'], either way it is read
         s = ev.run(fi)
         pubs = [c for c in s.calls if c[0] == "bits.keys.pub"]
         bad = []
@@ -431,7 +432,7 @@ def check_message_call(ctx, oid="C16.2", kinds=("p2wpkh", "p2wsh")):
     kind_t = T("field", (tm.app("bits.utils.wif_decode", [tm.idx(sk, 0), True], ty=tm.ANY), "addr_type"))
     for kind in kinds:
         ev.assumptions = {tm.truth(sk): True, tm.cmp("is", flag, None): False, tm.cmp("gt", tm.length(sk), 1): False}
-        ev.bind = {kind_t: kind}
+        ev.bind = {kind_t: kind, tm.idx(kind_t.args[0], "addr_type"): kind}  # decoded['addr_type'], either way it is read
         s = ev.run(fi)
         wm = [c for c in s.calls if c[0] == "bits.bips.bip143.witness_message"]
         R.check(oid, "PROV", fi, "%s: one BIP143 message construction in send_tx" % kind, len(wm) == 1, "found %d witness_message call sites" % len(wm))
